@@ -46,6 +46,37 @@ def tsig_rdata(rng, alg=None, mac=None, time=None, fudge=300, orig_id=0, error=0
     return out
 
 
+def name_rdata(rng, m, ty):
+    """RDATA of the RFC 1035 name-bearing types, written into Msg m so that embedded names may be compressed"""
+    start = len(m.buf)
+    if ty in (2, 5, 12, 3, 4, 7, 8, 9):
+        m.name(rand_labels(rng))
+    elif ty == 15:
+        m.buf += u16(rng.randrange(65536)); m.name(rand_labels(rng))
+    elif ty == 33:
+        m.buf += u16(1) + u16(2) + u16(53); m.name(rand_labels(rng), compress=rng.random() < 0.2)
+    elif ty == 6:
+        m.name(rand_labels(rng)); m.name(rand_labels(rng))
+        m.buf += u32(1) + u32(2) + u32(3) + u32(4) + u32(rng.randrange(1 << 32))
+    elif ty == 14:
+        m.name(rand_labels(rng)); m.name(rand_labels(rng))
+    elif ty == 16:
+        for _ in range(rng.randint(1, 3)):
+            s = [rng.randrange(256) for _ in range(rng.choice([0, 1, 5, 255]))]
+            m.buf += [len(s)] + s
+    elif ty == 13:
+        for _ in range(2):
+            s = [rng.randrange(256) for _ in range(rng.choice([0, 3]))]
+            m.buf += [len(s)] + s
+    elif ty == 11:
+        m.buf += [1, 2, 3, 4, 6] + [rng.randrange(256) for _ in range(rng.choice([0, 2]))]
+    rd = m.buf[start:]
+    del m.buf[start:]
+    if rng.random() < 0.12 and rd:
+        rd = rd[:rng.randrange(len(rd))] if rng.random() < 0.5 else rd + [rng.randrange(256)]
+    return rd
+
+
 def lite_rdata(rng, ty, cl):
     if ty == 1 and cl == 1:
         return [rng.randrange(256) for _ in range(rng.choice([4, 4, 4, 3, 5, 0]))]
@@ -102,8 +133,15 @@ def build_message(rng, types=LITE_TYPES, max_rr=4, qd=None, flags=None):
         ty = rng.choice(types)
         cl = rng.choice([1, 1, 3, 255, 4096, 7])
         ttl = rng.choice([0, 1, 3600, 0x7FFFFFFF, 0x80000000, 0xFFFFFFFF, rng.randrange(1 << 32)])
-        rd = lite_rdata(rng, ty, cl)
-        m.buf += u16(ty) + u16(cl) + u32(ttl) + u16(len(rd)) + rd
+        if ty in NAME_TYPES or ty in (3, 4, 7, 8, 9, 14, 11):
+            hdr_at = len(m.buf)
+            m.buf += u16(ty) + u16(cl) + u32(ttl) + [0, 0]
+            rd = name_rdata(rng, m, ty)
+            m.buf += rd
+            m.buf[hdr_at + 8:hdr_at + 10] = u16(len(rd))
+        else:
+            rd = lite_rdata(rng, ty, cl)
+            m.buf += u16(ty) + u16(cl) + u32(ttl) + u16(len(rd)) + rd
     return m.buf, qd, sum(counts)
 
 
